@@ -2,6 +2,7 @@ CONSTANTS
   Ops <- MCOps
   Pool <- MCPool
   Triples = FALSE
+  Dev <- MCDev
 SPECIFICATION Spec
 INVARIANT TypeOK
 INVARIANT Total
